@@ -64,6 +64,12 @@ def write_case(case, d, prefix="in"):
         recs.append({"chrom": case["contig"], "pos": v["pos"], "ref": v["ref"], "alts": [v["alt"]], "calls": calls,
                      "format": ["GT", field] if has else ["GT"]})
     contigs = {case["contig"]: case["seq"]}
+    if any("qual" in r for r in case["reads"]):
+        # hand-written cases give per-base qualities (the weight of a read's allele in the solver)
+        reads = [{"name": r["name"], "chrom": case["contig"], "start": r["start"], "cigar": [tuple(c) for c in r["cigar"]],
+                  "seq": r["seq"], "qual": r.get("qual", 30), "rg": "rg_" + r["sample"], "flag": r.get("flag", 0),
+                  "mapq": r.get("mapq", 60)} for r in case["reads"]]
+        sim.write_bam(paths["bam"], contigs, reads, [("rg_" + s, s) for s in case["samples"]])
     defs = {"PL": '##FORMAT=<ID=PL,Number=G,Type=Integer,Description="Phred-scaled genotype likelihoods">',
             "GL": '##FORMAT=<ID=GL,Number=G,Type=Float,Description="log10 genotype likelihoods">'}
     sim.write_vcf(paths["vcf"], contigs, case["samples"], recs, fmt_defs={field: defs[field]})
